@@ -70,6 +70,11 @@ CLAIMED["C14"] = ("predicated path enumeration (E4) with loop unrolling, type-le
          "go/ssa model; package-level metadata registries are shared by design (assumption); loops unrolled",
          "DESIGN.md §3 C14")
 
+CLAIMED["C15"] = ("predicated path enumeration of counter events per outcome (E4), sibling/contradiction rules for the metadata test and the LeafCount pairing (E7), lockset without propagation for post-construction Target fields and with foreign locks for latency/metadata (E3), loop analysis of window.slide",
+         "Static, all-paths: exactly-one-category per outcome of gnmiUpdate, one UpdateCount per announced leaf, EmptyCount for empty notifications only; LeafCount/AddCount and LeafCount/DelCount pairing with the same non-metadata restriction on both sides (found and now guards the fixed -1 leaf count); latest timestamp only moves forward and is recorded exactly when something was accepted; all 'is metadata' decisions on element 0 of the joined path (the remaining deviation in Target.GnmiUpdate is KNOWN-FINDING F11); every post-construction Target field under one lock or atomic (found the fixed sync-flag race and unlocked ts reads); latency/window/metadata state only under their mutex; slide examines every slot. The numerical conservation laws and latency bounds quantify over runtime values and are NOT decided.",
+         "go/ssa model; sync/atomic types are self-synchronising; Target.client exempt by the SetClient-before-updates contract (C01.wire); loops unrolled",
+         "DESIGN.md §3 C15")
+
 NA_REASON = {}
 DEFAULT_NA = "check not built yet in this round (static rules designed in DESIGN.md section 3); not claimed until the rule runs"
 
